@@ -7,7 +7,9 @@ import (
 	"regexp"
 	"sort"
 	"strings"
+	"syscall"
 	"testing"
+	"time"
 
 	"github.com/mimecast/dtail/internal/discovery"
 	"github.com/mimecast/dtail/verif/lib"
@@ -42,7 +44,7 @@ func hostGen() *rapid.Generator[string] {
 
 func genList(t *rapid.T) listCase {
 	var c listCase
-	c.Form = rapid.SampledFrom([]string{"comma", "file", "file-nonl", "module", "module"}).Draw(t, "form")
+	c.Form = rapid.SampledFrom([]string{"comma", "file", "file-nonl", "module", "module", "fifo"}).Draw(t, "form")
 	size := rapid.SampledFrom([]int{1, 2, 3, 5, 10, 40, 200, 1000, 3000}).Draw(t, "size")
 	n := rapid.IntRange(1, size).Draw(t, "n")
 	dupPct := rapid.SampledFrom([]int{0, 10, 50, 90}).Draw(t, "dup")
@@ -109,6 +111,24 @@ func evalList(c listCase) lib.Outcome {
 	case "comma":
 		s := strings.Join(c.Entries, ",")
 		d = func() *discovery.Discovery { return discovery.New("", s, discovery.Shuffle) }
+	case "fifo":
+		// the server file is a named pipe (what --servers <(generator) or a mkfifo'd inventory gives): each call gets the
+		// list written to it once
+		p := filepath.Join(scratch, fmt.Sprintf("servers-fifo-%d-%d", os.Getpid(), time.Now().UnixNano()))
+		if err := syscall.Mkfifo(p, 0o644); err != nil {
+			return lib.Outcome{Inconclusive: err.Error()}
+		}
+		defer os.Remove(p)
+		body := strings.Join(c.Entries, "\n") + "\n"
+		d = func() *discovery.Discovery {
+			go func() {
+				if w, err := os.OpenFile(p, os.O_WRONLY, 0); err == nil {
+					w.WriteString(body)
+					w.Close()
+				}
+			}()
+			return discovery.New("", p, discovery.Shuffle)
+		}
 	case "file", "file-nonl", "module":
 		f, err := os.CreateTemp(scratch, "servers-")
 		if err != nil {
@@ -173,7 +193,7 @@ func keys(m map[string]bool) []string {
 func TestC18Random(t *testing.T) {
 	lib.Run(t, lib.Spec[listCase]{
 		Prop: "C18", Check: "random",
-		Rule: "server lists of 1..3000 host[:port] entries with 0-90% duplicates, given as comma list, server file (with/without final newline) or through the VERIF plug-in module with an optional /regex/ filter; ServerList() called 3 times; non-trivial = (>=2 distinct entries and >=1 duplicate) or a filter keeping a proper non-empty subset; distinct by (entries, form, filter)",
+		Rule: "server lists of 1..3000 host[:port] entries with 0-90% duplicates, given as comma list, server file (with/without final newline), named pipe, or through the VERIF plug-in module with an optional /regex/ filter; ServerList() called 3 times; non-trivial = (>=2 distinct entries and >=1 duplicate) or a filter keeping a proper non-empty subset; distinct by (entries, form, filter)",
 		Gen:  genList, Eval: evalList,
 		SampleOf: func(c listCase) interface{} {
 			return map[string]interface{}{"form": c.Form, "filter": c.Filter, "n": len(c.Entries), "entries": clip(c.Entries)}
